@@ -6,7 +6,7 @@ use xplore::*;
 
 const KX: [f64; 6] = [1.0, 0.5, 2.0, 7.5, 1e-3, 1e3];
 const KY: [f64; 3] = [0.0, 2.0, -1e3];
-const AB: [f64; 6] = [0.25, 0.5, 1.0, 2.0, 3.0, 10.0];
+const AB: [f64; 9] = [0.25, 0.5, 1.0, 2.0, 3.0, 10.0, 1e-3, 1e-6, 1e3];
 const CUBE: [f64; 3] = [0.0, 1.0, -0.5];
 const LANE_ID: [f64; 9] = [1.5, -2.25, 3.125, -4.0625, 5.5, -6.75, 7.875, -8.9375, 9.96875];
 
@@ -107,7 +107,12 @@ where
     let tol0 = ma.add(&mb).mul(&tiny).add(&sa).add(&sb);
     for (name, ya, yb, nums) in [("integral(knot)", fa, fb, &int), ("indefinite()", ia, ib, &ind)] {
         // the additive constant k is an intermediate term of both evaluations: F(a) and F(b) are each rounded at magnitude |k|
-        let tol = tol0.add(&dy(nums[0]).abs().mul(&tiny).mul_i(2));
+        let mut tol = tol0.add(&dy(nums[0]).abs().mul(&tiny).mul_i(2));
+        if n == 5 {
+            // quartic special form k + v*sum c_j x^j + u*v*x^5*R(x): the term u*v*x^5*R(x) ~ u*v*e^x carries the rounding of
+            // x = -ln v with sensitivity |u| (independent of v): propagate 2 ulp of ln at both evaluation points
+            tol = tol.add(&dy(nums[5]).abs().mul(&dy(exact::ulp(a.ln())).add(&dy(exact::ulp(b.ln())))).mul_i(2));
+        }
         if ya.is_finite() && yb.is_finite() {
             cx.ratio(dy(yb).sub(&dy(ya)).sub(&want).abs().to_f64() / tol.to_f64());
         }
@@ -146,7 +151,7 @@ pub fn check(thorough: bool, _seed: u64) -> Check {
             let k = unit % nk;
             let knot = Knot { x: KX[k / KY.len()], y: KY[k % KY.len()] };
             let c = coeffs(cx, d + 1, if thorough { 0 } else { (d + 1).saturating_sub(7) });
-            let (a, b) = p2[cx.choose(3) * 7 % np];
+            let (a, b) = p2[(cx.choose(5) * 17 + 3) % np];
             if knot.x != 1.0 && a != 1.0 && b != 1.0 {
                 cx.nontrivial();
             }
@@ -158,7 +163,7 @@ pub fn check(thorough: bool, _seed: u64) -> Check {
         }),
         classes: vec![("quartic_special_form", true), ("generic_form", true)],
         bounds: json!({"degrees": "0..8", "coefficients": "unit vectors, all ones, alternating, lane identifier, cube over {0,1,-0.5} (last 7 lanes quick, all lanes thorough)",
-            "knots": "x in {1,0.5,2,7.5,1e-3,1e3} x y in {0,2,-1e3}", "(a,b)": "3 pairs per leaf"}),
+            "knots": "x in {1,0.5,2,7.5,1e-3,1e3} x y in {0,2,-1e3}", "(a,b)": "5 pairs per leaf"}),
     };
     let pairs_ph = Phase {
         name: "definite-integrals",
@@ -179,7 +184,7 @@ pub fn check(thorough: bool, _seed: u64) -> Check {
             by_degree!(d, leaf(&c, knot, a, b, cx))
         }),
         classes: vec![("quartic_special_form", true), ("generic_form", true)],
-        bounds: json!({"degrees": "0..8", "coefficients": "as in phase knots", "(a,b)": "all ordered pairs of distinct values from {0.25,0.5,1,2,3,10}", "knot": "(2,5)",
+        bounds: json!({"degrees": "0..8", "coefficients": "as in phase knots", "(a,b)": "all ordered pairs of distinct values from {0.25,0.5,1,2,3,10,1e-3,1e-6,1e3}", "knot": "(2,5)",
             "oracle": "exact q from q_n=p_n, q_i=p_i-(i+1)q_(i+1); G(t)=t*q(L), L=ln t as f64; tolerance 2^-40*sum Qbar_i(a|L_a|^i+b|L_b|^i) + 2 ulp(L) sensitivity"}),
     };
     Check {
